@@ -295,6 +295,89 @@ theorem cache_one_entry_per_id (L : Nat) (views : List View) (insts : List Inst)
   cases hs'
   exact hne (hk.symm.trans hk')
 
+/-! ## views that cannot be honoured (pipeline.go:237-292, 366-372, 637-671) -/
+
+/-- a view whose aggregation is incompatible with the instrument's kind (`isAggregatorCompatible`: e.g. last value on
+a counter, sum on a gauge) contributes an ERROR to `inserter.Instrument`, nothing else -/
+def honourable (j : Nat) (i : Inst) (v : View) : Bool := !(v.matches j i && incompatible i v.agg)
+
+private theorem resolveViews_drop_invalid (L : Nat) (j : Nat) (i : Inst) (vs : List View) :
+    ∀ (S : List StreamSt) (M : List Nat) (mt mt' : Bool),
+      (resolveViews L j i vs S M mt).1 = (resolveViews L j i (vs.filter (honourable j i)) S M mt').1 ∧
+      (resolveViews L j i vs S M mt).2.1 = (resolveViews L j i (vs.filter (honourable j i)) S M mt').2.1 := by
+  induction vs with
+  | nil => intro S M mt mt'; simp [resolveViews]
+  | cons v vs ih =>
+    intro S M mt mt'
+    by_cases hm : v.matches j i = true
+    · by_cases hi : incompatible i v.agg = true
+      · have hh : honourable j i v = false := by simp [honourable, hm, hi]
+        simp only [List.filter_cons, hh, Bool.false_eq_true, if_false]
+        simp only [resolveViews, hm, if_true, cachedAggregator, hi]
+        exact ih S M true mt'
+      · have hh : honourable j i v = true := by simp [honourable, hm, hi]
+        simp only [List.filter_cons, hh, if_true]
+        simp only [resolveViews, hm, if_true]
+        cases (cachedAggregator L S i (v.streamName j) v.filter v.agg).2 with
+        | none => exact ih _ _ true true
+        | some idx =>
+          simp only
+          split <;> exact ih _ _ true true
+    · have hh : honourable j i v = true := by simp [honourable, hm]
+      simp only [List.filter_cons, hh, if_true]
+      simp only [resolveViews, hm, if_false]
+      exact ih S M mt mt'
+
+/-- "Views that cannot be honoured do not affect the ones that can": for `inserter.Instrument` on ANY cache `S`
+(hence for every reader's pipeline independently), when at least one matching view has a compatible aggregation, the
+cache and the instrument's measure functions are exactly what they are when every matching view with an INCOMPATIBLE
+aggregation is absent — such a view creates no stream, consumes no cache entry, does not reorder, drop or duplicate
+the measure functions of the other views, and (being a match) only suppresses the default stream, which the
+compatible match suppresses anyway.  The error the SDK returns alongside is no reason to lose the valid streams: the
+instrument handed to the user carries exactly these measure functions (`resolver.Aggregators` appends them whatever
+the error).  Without any compatible match: no stream at all (part 2), never the default stream. -/
+theorem invalid_views_do_not_affect_valid_ones (L : Nat) (views : List View) (j : Nat) (i : Inst) (S : List StreamSt) :
+    ((∃ v ∈ views, v.matches j i = true ∧ incompatible i v.agg = false) →
+      insertInstrument L views j i S = insertInstrument L (views.filter (honourable j i)) j i S) ∧
+    ((∃ v ∈ views, v.matches j i = true) → (∀ v ∈ views, v.matches j i = true → incompatible i v.agg = true) →
+      insertInstrument L views j i S = (S, [])) := by
+  have hd := resolveViews_drop_invalid L j i views S [] false false
+  have hm1 := (resolveViews_spec L j i views S [] false).matched
+  have hm2 := (resolveViews_spec L j i (views.filter (honourable j i)) S [] false).matched
+  constructor
+  · rintro ⟨v, hv, hm, hc⟩
+    have h1 : (resolveViews L j i views S [] false).2.2 = true := by
+      rw [hm1]; simp; exact ⟨v, hv, hm⟩
+    have h2 : (resolveViews L j i (views.filter (honourable j i)) S [] false).2.2 = true := by
+      rw [hm2]; simp only [Bool.false_or, List.any_eq_true]
+      exact ⟨v, List.mem_filter.mpr ⟨hv, by simp [honourable, hm, hc]⟩, hm⟩
+    simp only [insertInstrument, h1, h2, if_true, hd.1, hd.2]
+  · rintro ⟨v, hv, hm⟩ hall
+    have h1 : (resolveViews L j i views S [] false).2.2 = true := by
+      rw [hm1]; simp; exact ⟨v, hv, hm⟩
+    have hf : views.filter (honourable j i) = views.filter (fun v => !v.matches j i) := by
+      apply List.filter_congr
+      intro w hw
+      by_cases hwm : w.matches j i = true
+      · simp [honourable, hwm, hall w hw hwm]
+      · simp [honourable, hwm]
+    have hnone : ∀ (vs : List View) (S : List StreamSt) (M : List Nat) (mt : Bool), (∀ w ∈ vs, w.matches j i = false) →
+        (resolveViews L j i vs S M mt).1 = S ∧ (resolveViews L j i vs S M mt).2.1 = M := by
+      intro vs
+      induction vs with
+      | nil => intro S M mt _; simp [resolveViews]
+      | cons w ws ih =>
+        intro S M mt h
+        have hw := h w (by simp)
+        simp only [resolveViews, hw, Bool.false_eq_true, if_false]
+        exact ih S M mt (fun x hx => h x (by simp [hx]))
+    have h0 := hnone (views.filter (fun v => !v.matches j i)) S [] false (by
+      intro w hw
+      have := (List.mem_filter.mp hw).2
+      simpa using this)
+    simp only [insertInstrument, h1, if_true]
+    rw [hd.1, hd.2, hf, h0.1, h0.2]
+
 /-! ## conservation over the lifetime of a clearing stream -/
 
 /-- the measurements of a step sequence, in order -/
@@ -407,6 +490,14 @@ example : Flag.denotesPositive [43, 49, 50] 12 :=
 example : (cachedAggregator 0 (cachedAggregator 0 [] { float := false, kind := .counter } (.ren 0 false) none none).1
       { float := false, kind := .counter } (.ren 0 true) (some { deny := false, keys := [1] }) (some .explicit)).2 =
     some 0 := by decide
+/-- a counter matched by a last-value view (cannot be honoured), a renaming view and a filtered view: the two valid
+streams, exactly as without the first view -/
+example :
+    let vs : List View := [{ pat := .exact 0, kind := none, rename := none, filter := none, agg := some .last },
+      { pat := .exact 0, kind := none, rename := some (0, false), filter := none, agg := none },
+      { pat := .star, kind := none, rename := none, filter := some { deny := false, keys := [1] }, agg := some .explicit }]
+    (insertInstrument 0 vs 0 { float := false, kind := .counter } []).2 = [0, 1] ∧
+    (vs.filter (honourable 0 { float := false, kind := .counter })).length = 2 := by decide
 /-- L = 2, delta, three cycles: the reports total 1+2+4+8+16 = 31 although the kept set changes every cycle -/
 example : (((Agg.sum { limit := 2 }).runSteps .delta
       [.meas 5 1, .meas 7 2, .col 1, .meas 7 4, .meas 5 8, .col 2, .meas 9 16, .col 3, .meas 5 32]).2.map total) =
